@@ -543,7 +543,8 @@ def _is_positive(expr: sympy.Expr) -> bool:
 
 
 def _comps(graph):
-    return {comp for comp in graph.nodes if not isinstance(comp, Output)}
+    # NOTE: A list in node order: iteration order must not depend on hash randomisation
+    return [comp for comp in graph.nodes if not isinstance(comp, Output)]
 
 
 def to_compartmental_system(names, eqs: Sequence[sympy.Eq]) -> CompartmentalSystem:
